@@ -249,64 +249,91 @@ func main() {
 		}
 	}
 
-	results := make([]*workerResult, tc.workers)
+	// A worker is a sequence of processes ("chunks"): in the thorough tier each process works for at most
+	// chunkBudget and the next one continues with the following seeds, so that memory (the race detector's in
+	// particular) stays bounded however long the tier runs.
+	var results []*workerResult
+	var resMu sync.Mutex
 	errs := make([]string, tc.workers)
 	var wg sync.WaitGroup
+	const chunkBudget = 4 * time.Minute
+	tierStart := time.Now()
 	for k := 0; k < tc.workers; k++ {
 		wg.Add(1)
 		go func(k int) {
 			defer wg.Done()
-			out := filepath.Join(outDir, fmt.Sprintf("w%d.json", k))
-			cmd := exec.Command(bin, "-test.run", "^TestWorker$", "-test.timeout", "0")
-			cmd.Env = append(os.Environ(),
-				"VERIF_PROP="+prop,
-				"VERIF_SCENARIO="+*scenario,
-				fmt.Sprintf("VERIF_SEED=%d", seed),
-				fmt.Sprintf("VERIF_FIRST=%d", uint64(k)*(1<<40)),
-				fmt.Sprintf("VERIF_COUNT=%d", tc.runsPerWorker),
-				fmt.Sprintf("VERIF_BUDGET_MS=%d", tc.budget.Milliseconds()),
-				"VERIF_OUT="+out,
-				"VERIF_REPLAY_DIR="+replayDir,
-				"VERIF_KNOWN="+filepath.Join(root, "known_findings.txt"),
-				"GOMAXPROCS=2",
-				"GORACE=halt_on_error=0 log_path="+filepath.Join(outDir, fmt.Sprintf("race%d", k)),
-			)
-			var stderr strings.Builder
-			cmd.Stderr = &stderr
-			cmd.Stdout = &stderr
-			done := make(chan error, 1)
-			if err := cmd.Start(); err != nil {
-				errs[k] = err.Error()
-				return
-			}
-			go func() { done <- cmd.Wait() }()
-			watchdog := tc.budget*3 + 10*time.Minute
-			select {
-			case err := <-done:
-				if err != nil {
-					// a -race worker ends with a failing status once the detector has reported anything
-					// (testing marks the test failed); its result file is still authoritative
-					if _, serr := os.Stat(out); !(pc.race && serr == nil) {
-						errs[k] = fmt.Sprintf("worker %d exited: %v\n%s", k, err, tailStr(stderr.String(), 6000))
+			first := uint64(k) * (1 << 40)
+			remainingRuns := tc.runsPerWorker
+			for chunk := 0; ; chunk++ {
+				budget := tc.budget
+				if tc.runsPerWorker >= 1<<40 { // time-bounded tier
+					left := tc.budget - time.Since(tierStart)
+					if left <= 0 {
 						return
 					}
+					budget = left
+					if budget > chunkBudget {
+						budget = chunkBudget
+					}
 				}
-			case <-time.After(watchdog):
-				cmd.Process.Kill()
-				errs[k] = fmt.Sprintf("worker %d: watchdog (%v) expired\n%s", k, watchdog, tailStr(stderr.String(), 3000))
-				return
+				out := filepath.Join(outDir, fmt.Sprintf("w%d-%d.json", k, chunk))
+				cmd := exec.Command(bin, "-test.run", "^TestWorker$", "-test.timeout", "0")
+				cmd.Env = append(os.Environ(),
+					"VERIF_PROP="+prop,
+					"VERIF_SCENARIO="+*scenario,
+					fmt.Sprintf("VERIF_SEED=%d", seed),
+					fmt.Sprintf("VERIF_FIRST=%d", first),
+					fmt.Sprintf("VERIF_COUNT=%d", remainingRuns),
+					fmt.Sprintf("VERIF_BUDGET_MS=%d", budget.Milliseconds()),
+					"VERIF_OUT="+out,
+					"VERIF_REPLAY_DIR="+replayDir,
+					"VERIF_KNOWN="+filepath.Join(root, "known_findings.txt"),
+					"GOMAXPROCS=2",
+					"GORACE=halt_on_error=0 log_path="+filepath.Join(outDir, fmt.Sprintf("race%d-%d", k, chunk)),
+				)
+				var stderr strings.Builder
+				cmd.Stderr = &stderr
+				cmd.Stdout = &stderr
+				done := make(chan error, 1)
+				if err := cmd.Start(); err != nil {
+					errs[k] = err.Error()
+					return
+				}
+				go func() { done <- cmd.Wait() }()
+				watchdog := budget*3 + 10*time.Minute
+				select {
+				case err := <-done:
+					if err != nil {
+						// a -race worker ends with a failing status once the detector has reported anything
+						// (testing marks the test failed); its result file is still authoritative
+						if _, serr := os.Stat(out); !(pc.race && serr == nil) {
+							errs[k] = fmt.Sprintf("worker %d exited: %v\n%s", k, err, tailStr(stderr.String(), 6000))
+							return
+						}
+					}
+				case <-time.After(watchdog):
+					cmd.Process.Kill()
+					errs[k] = fmt.Sprintf("worker %d: watchdog (%v) expired\n%s", k, watchdog, tailStr(stderr.String(), 3000))
+					return
+				}
+				b, err := os.ReadFile(out)
+				if err != nil {
+					errs[k] = fmt.Sprintf("worker %d wrote no result: %v\n%s", k, err, tailStr(stderr.String(), 3000))
+					return
+				}
+				var wr workerResult
+				if err := json.Unmarshal(b, &wr); err != nil {
+					errs[k] = fmt.Sprintf("worker %d result unreadable: %v", k, err)
+					return
+				}
+				resMu.Lock()
+				results = append(results, &wr)
+				resMu.Unlock()
+				if tc.runsPerWorker < 1<<40 || wr.Runs == 0 || wr.HarnessErr != "" {
+					return // run-bounded tier: one process; nothing done: do not spin
+				}
+				first += uint64(wr.Runs)
 			}
-			b, err := os.ReadFile(out)
-			if err != nil {
-				errs[k] = fmt.Sprintf("worker %d wrote no result: %v\n%s", k, err, tailStr(stderr.String(), 3000))
-				return
-			}
-			var wr workerResult
-			if err := json.Unmarshal(b, &wr); err != nil {
-				errs[k] = fmt.Sprintf("worker %d result unreadable: %v", k, err)
-				return
-			}
-			results[k] = &wr
 		}(k)
 	}
 	wg.Wait()
